@@ -73,6 +73,19 @@ def build_driver(log=sys.stderr):
 
 
 def _run_cargo(cfg, manifest_dir, args, out_dir, target_dir, members):
+    """one configuration of one tree; the target directory of a configuration is shared by all analysed trees (dependencies are
+    built once), so the fingerprint reset and the cargo run are serialised per target directory"""
+    os.makedirs(target_dir, exist_ok=True)
+    tl = open(target_dir.rstrip("/") + ".lock", "w")
+    fcntl.flock(tl, fcntl.LOCK_EX)
+    try:
+        return _run_cargo_locked(cfg, manifest_dir, args, out_dir, target_dir, members)
+    finally:
+        fcntl.flock(tl, fcntl.LOCK_UN)
+        tl.close()
+
+
+def _run_cargo_locked(cfg, manifest_dir, args, out_dir, target_dir, members):
     os.makedirs(out_dir, exist_ok=True)
     # cargo's freshness cache would skip the wrapper: drop the members' fingerprints
     fp = os.path.join(target_dir, "debug", ".fingerprint")
